@@ -141,7 +141,11 @@ Section Force.
   | KDipoleMagnitude
   | KDipoleAngle (pbc : bool)
   | KPolarTheta
-  | KPolarPhi.
+  | KPolarPhi
+  (* rmsd with its default fit (centerToReference + rotateToReference on its own atoms, fit gradients disabled):
+     reference positions, and the optimal-rotation solver (rotation::calc_optimal_rotation) as a function from the
+     list of (centred position, centred reference position) pairs to a quaternion *)
+  | KRmsd (ref : list V3) (qopt : list (V3 * V3) -> @quat T).
 
   Variable pi : T.
   Definition rad2deg : T := ofnat 180 / pi.
@@ -359,6 +363,32 @@ Section Force.
     (rad2deg * ph,
      [wgrad g (rad2deg * nneg O (nsin O ph) / (r * nsin O th), rad2deg * ncos O ph / (r * nsin O th), zero)]).
 
+  (* quaternion::rotation_matrix applied to a vector, and the conjugate (= inverse rotation for unit quaternions) *)
+  Definition qrot (q : @quat T) (v : V3) : V3 :=
+    let '(q0, q1, q2, q3) := q in let '(x, y, z) := v in
+    ((q0 * q0 + q1 * q1 - q2 * q2 - q3 * q3) * x + tw * (q1 * q2 - q0 * q3) * y + tw * (q0 * q2 + q1 * q3) * z,
+     tw * (q0 * q3 + q1 * q2) * x + (q0 * q0 - q1 * q1 + q2 * q2 - q3 * q3) * y + tw * (q2 * q3 - q0 * q1) * z,
+     tw * (q1 * q3 - q0 * q2) * x + tw * (q0 * q1 + q2 * q3) * y + (q0 * q0 - q1 * q1 - q2 * q2 + q3 * q3) * z).
+  Definition qconj (q : @quat T) : @quat T := let '(q0, q1, q2, q3) := q in (q0, nneg O q1, nneg O q2, nneg O q3).
+  (* positions minus their centre of geometry *)
+  Definition centred (l : list V3) : list V3 :=
+    let c := vdiv (vsum l) (ofnat (length l)) in map (fun p => v3sub O p c) l.
+  (* deviations R(q) y_i - r_i *)
+  Definition rdev (q : @quat T) (prs : list (V3 * V3)) : list V3 := map (fun yr => v3sub O (qrot q (fst yr)) (snd yr)) prs.
+
+  (* rmsd::calc_value / calc_gradients on the group fitted by calc_apply_roto_translation, and apply_colvar_force's
+     rotation back to the laboratory frame (rot.inverse()); the centre term of the fit vanishes and the rotation
+     term is not computed ("derivatives of the optimal rotation ... cancel out in the gradients") *)
+  Definition k_rmsd (ref : list V3) (qopt : list (V3 * V3) -> @quat T) (gs : list gdata) : T * list (list V3) :=
+    let l := gd_pos (gnth gs 0) in
+    let n := ofnat (length l) in
+    let prs := combine (centred l) (centred ref) in
+    let q := qopt prs in
+    let dev := rdev q prs in
+    let x := nsqrt O (tsum (map (v3norm2 O) dev) / n) in
+    let c := (if nltb O zero x then hf / (x * n) else zero) * tw in
+    (x, [map (fun d => qrot (qconj q) (v3scale O c d)) dev]).
+
   Definition keval (cell : option V3) (k : ckind) (gs : list gdata) : T * list (list V3) :=
     match k with
     | KDistance pbc => k_distance pbc cell gs
@@ -378,6 +408,7 @@ Section Force.
     | KDipoleAngle pbc => k_dipole_angle pbc cell gs
     | KPolarTheta => k_polar_theta gs
     | KPolarPhi => k_polar_phi gs
+    | KRmsd ref qopt => k_rmsd ref qopt gs
     end.
 
   (* ---- a component inside a variable ---- *)
